@@ -203,6 +203,18 @@ def c20_oracle(rec, dh, sub, mp, limit, coords, ref, rb):
             if not ok:
                 rec.fail("accepted_but_wrong_values", dict(sub, level=lv, box=b),
                          "box data differ from every FAB of the file naming range %s %s" % (lo, hi))
+                continue
+            # the other selector forms go through other reader functions: same data, declared shape
+            for sel, want in ((nf - 1, arr[..., nf - 1]), ([0, nf - 1], arr[..., [0, nf - 1]]), (list(pck.fields)[0], arr[..., 0])):
+                with vpool.controlled():
+                    st2, a2 = call(lambda: pck[sel][lv][b])
+                if st2 == "exc":
+                    rec.fail("accepted_but_unreadable", dict(sub, level=lv, box=b, selector=str(sel)), exc_text(a2))
+                elif not isinstance(a2, np.ndarray) or a2.shape != want.shape:
+                    rec.fail("accepted_but_wrong_shape", dict(sub, level=lv, box=b, selector=str(sel)),
+                             "shape %s, level header declares %s" % (getattr(a2, "shape", None), want.shape))
+                elif a2.tobytes() != np.ascontiguousarray(want).tobytes():
+                    rec.fail("accepted_but_wrong_values", dict(sub, level=lv, box=b, selector=str(sel)), "selector forms disagree")
 
 
 SIGNATURES = {}
